@@ -15,6 +15,7 @@ import CBV.Lemmas.C03Calc
 import CBV.Lemmas.C03Geom
 import CBV.Lemmas.C03Mono
 import CBV.Lemmas.C03Hist
+import CBV.Lemmas.C03Guards
 
 namespace CBV.C03
 
@@ -46,6 +47,34 @@ theorem T_C03_closure_table :
        some ["start_size<end_size+total_expansion", "count<total_expansion+start_size", "c2c_expansion<count+end_size"],
        some ["count<total_expansion+c2c_expansion", "start_size<count+c2c_expansion", "end_size<start_size+total_expansion"]] := by
   decide
+
+/-- The loop constants of `Chop.calculate` read from its source text: exactly one `range(N)` loop (its bound is the
+    `calcRounds` the plans above were computed with, and it leaves a margin over the 3 rounds ever needed), and the one
+    set literal is the five quantities `allFive` tests for. -/
+theorem T_C03_loop_constants :
+    CBV.Gen.c03CalcRounds = [calcRounds] ∧ 4 ≤ calcRounds ∧
+    CBV.Gen.c03RequiredKeys.map (fun ks => ks.mapM Q.ofString?) = [some [.c2c, .count, .end_, .start, .total]] := by
+  decide
+
+/-- The `_validate_*` calls and the number of explicit `raise` statements of every relation, read from the source text
+    at every run, are exactly the guards the model functions implement (`modelGuards`), relation by relation and in
+    the order of the relation table. -/
+theorem T_C03_guard_table :
+    guardTable = some modelGuards ∧ relTable = some (modelGuards.map (·.1)) := by decide
+
+/-- … and the model functions really implement them: a relation that returns has passed every validator listed for it
+    (positive length, count `>= 1` resp. `> 1`, positive sizes, non-zero ratios), for every tolerance and solver answer. -/
+theorem T_C03_guards_hold {t : Tol} {L : ℚ} {o : Oracle} {v v' : Vals} :
+    ∀ p ∈ modelGuards, applyRel t L o v p.1 = .ok v' → ∀ g ∈ p.2.1, g.holds L v :=
+  guards_hold
+
+example : (Guard.size .end_).holds 1 { count := some 3, end_ := some (1 / 2) } ∧
+    ¬ (Guard.ratio .c2c).holds 1 { count := some 3, c2c := some 0 } := by
+  constructor
+  · exact ⟨1 / 2, rfl, by norm_num⟩
+  · rintro ⟨x, hx, hne⟩
+    simp only [Vals.get, Option.some.injEq] at hx
+    exact hne hx.symm
 
 /-- a given count is the returned count, for every set of given parameters (no relation recomputes it) -/
 theorem T_C03_given_count {t : Tol} {L : ℚ} {o : Oracle} {v res : Vals} {n : ℕ}
@@ -722,6 +751,102 @@ example : TOL < absR ((11 : ℚ) / 10 - 1) ∧ TOL < absR (1 / ((11 : ℚ) / 10)
     returned (calculate T0 1 { count := some 8 } { end_ := some (1 / 10), c2c := some (1 / (11 / 10)) }) =
       some (some 8, some (1 / (19487171 / 10000000))) := by decide +kernel
 
+/-- the mirrored statement: (end size `e`, ratio `r`) → `Chop.invert` → (start size `e`, ratio `1/r`) resolves to `(n, 1/T)` -/
+theorem T_C03_invert_end_c2c {L e r : ℚ} {o : Oracle} {res : Vals}
+    (h : calculate T0 L o { end_ := some e, c2c := some r } = .ok res)
+    (hb : TOL < absR (r - 1)) (hb' : TOL < absR (1 / r - 1)) :
+    ∃ res', calculate T0 L o { start := some e, c2c := some (1 / r) } = .ok res' ∧
+      res'.count = res.count ∧ res'.total = res.total.map (fun T => 1 / T) := by
+  obtain ⟨n, s, T, hn, hs, hT, rfl⟩ := pair_end_c2c h
+  obtain ⟨hL, he, hr0, ho, hn1, hcase⟩ := countEndC2c_ok hn
+  obtain ⟨_, _, _, hTv⟩ := totalCountC2c_ok hT
+  rcases hcase with ⟨_, hr, hbpos, hok⟩ | ⟨hun, _⟩
+  swap
+  · exact absurd hb (not_lt.mpr hun)
+  have hri : 0 < 1 / r := by positivity
+  have hTi : (1 / r) ^ (n - 1) ≠ 0 := pow_ne_zero _ (ne_of_gt hri)
+  refine ⟨{ count := some n, start := some e, end_ := some (e * (1 / r) ^ (n - 1)), c2c := some (1 / r),
+            total := some ((1 / r) ^ (n - 1)) }, ?_, rfl, ?_⟩
+  · rw [calculate_ok_iff (k := 2) (by exact plan_start_c2c), runSteps3]
+    refine ⟨{ count := some n, start := some e, c2c := some (1 / r) },
+      { count := some n, start := some e, c2c := some (1 / r), total := some ((1 / r) ^ (n - 1)) }, ?_, ?_, ?_⟩
+    · simp only [applyRel, map_ok]
+      refine ⟨n, ?_, rfl⟩
+      unfold countStartC2c
+      simp only [guardLen_bind, guardSize_bind, guardRatio_bind]
+      rw [if_neg (not_le.mpr hL), if_neg (not_le.mpr he), if_neg (ne_of_gt hri), if_pos hb', if_neg (not_lt.mpr (le_of_lt hri))]
+      have hval : 1 - L / e * (1 - 1 / r) = 1 + L / e * (1 - r) / r := by field_simp; ring
+      simp only [hval]
+      rw [if_neg (not_lt.mpr (le_of_lt hbpos)), if_neg (ne_of_gt hbpos)]
+      exact oracleCount_intro ho hn1 hok
+    · simp only [applyRel, map_ok]
+      refine ⟨_, ?_, rfl⟩
+      unfold totalCountC2c
+      simp only [guardLen_bind, guardCountGe1_bind, guardRatio_bind]
+      rw [if_neg (not_le.mpr hL), if_neg (by omega), if_neg (ne_of_gt hri)]
+      rfl
+    · simp only [applyRel, map_ok]
+      refine ⟨_, ?_, rfl⟩
+      unfold endStartTotal
+      simp only [guardLen_bind, guardRatio_bind]
+      rw [if_neg (not_le.mpr hL), if_neg hTi]
+      rfl
+  · simp only [Option.map_some, hTv, one_div, inv_pow]
+
+example : TOL < absR ((10 : ℚ) / 11 - 1) ∧ TOL < absR (1 / ((10 : ℚ) / 11) - 1) ∧
+    returned (calculate T0 1 { count := some 8 } { end_ := some (1 / 10), c2c := some (10 / 11) }) =
+      some (some 8, some ((10 / 11) ^ 7)) := by decide +kernel
+
+/-- (count, ratio `r`) → `Chop.invert` → (count, ratio `1/r`): same count, reciprocal expansion, when `r > 0` and both
+    ratios fall on the same side of the `TOL` switch -/
+theorem T_C03_invert_count_c2c {t : Tol} {L r : ℚ} {n : ℕ} {o : Oracle} {res : Vals}
+    (h : calculate t L o { count := some n, c2c := some r } = .ok res) (hr : 0 < r)
+    (hb : (TOL < absR (r - 1) ∧ TOL < absR (1 / r - 1)) ∨ (absR (r - 1) ≤ TOL ∧ absR (1 / r - 1) ≤ TOL)) :
+    ∃ res', calculate t L o { count := some n, c2c := some (1 / r) } = .ok res' ∧
+      res'.count = res.count ∧ res'.total = res.total.map (fun T => 1 / T) := by
+  obtain ⟨s, T, e, hs, hT, he, rfl⟩ := pair_count_c2c h
+  obtain ⟨hL, hn1, _, hTv⟩ := totalCountC2c_ok hT
+  have hri : 0 < 1 / r := by positivity
+  have hTi : (1 / r) ^ (n - 1) ≠ 0 := pow_ne_zero _ (ne_of_gt hri)
+  have hstart : ∃ s', startCountC2c L n (1 / r) = .ok s' := by
+    unfold startCountC2c
+    simp only [guardLen_bind, guardCountGe1_bind, guardRatio_bind]
+    rw [if_neg (not_le.mpr hL), if_neg (by omega), if_neg (ne_of_gt hri)]
+    rcases hb with ⟨_, hb'⟩ | ⟨_, hb'⟩
+    · have hri1 : (1 / r) ≠ 1 := by
+        intro h1
+        rw [h1] at hb'
+        simp [absR] at hb'
+        exact absurd hb' (not_lt.mpr (le_of_lt TOL_pos))
+      rw [if_pos hb', if_neg (sub_ne_zero.mpr (Ne.symm (pow_ne_one_of_pos hri hri1 hn1)))]
+      exact ⟨_, rfl⟩
+    · rw [if_neg (not_lt.mpr hb')]
+      exact ⟨_, rfl⟩
+  obtain ⟨s', hs'⟩ := hstart
+  refine ⟨{ count := some n, start := some s', end_ := some (s' * (1 / r) ^ (n - 1)), c2c := some (1 / r),
+            total := some ((1 / r) ^ (n - 1)) }, ?_, rfl, ?_⟩
+  · rw [calculate_ok_iff (k := 2) (by exact plan_count_c2c), runSteps3]
+    refine ⟨{ count := some n, start := some s', c2c := some (1 / r) },
+      { count := some n, start := some s', c2c := some (1 / r), total := some ((1 / r) ^ (n - 1)) }, ?_, ?_, ?_⟩
+    · simp only [applyRel, map_ok]
+      exact ⟨s', hs', rfl⟩
+    · simp only [applyRel, map_ok]
+      refine ⟨_, ?_, rfl⟩
+      unfold totalCountC2c
+      simp only [guardLen_bind, guardCountGe1_bind, guardRatio_bind]
+      rw [if_neg (not_le.mpr hL), if_neg (by omega), if_neg (ne_of_gt hri)]
+      rfl
+    · simp only [applyRel, map_ok]
+      refine ⟨_, ?_, rfl⟩
+      unfold endStartTotal
+      simp only [guardLen_bind, guardRatio_bind]
+      rw [if_neg (not_le.mpr hL), if_neg hTi]
+      rfl
+  · simp only [Option.map_some, hTv, one_div, inv_pow]
+
+example : returned (calculate T0 1 {} { count := some 4, c2c := some (1 / 2) }) = some (some 4, some (1 / 8)) := by
+  decide +kernel
+
 /-! ### 7b. histories on one `Chop` object: `calculate` keeps no memory -/
 
 /-- Every `calculate` inside a history of calls on one object answers exactly what a fresh chop with the current
@@ -894,5 +1019,39 @@ theorem T_C03_add_chop {t : Tol} {L q : ℚ} {o : Oracle} {v : Vals} {spec spec'
       simp only [pure, Except.pure, Except.ok.injEq] at h
       exact ⟨hq'.1, hq'.2, res, n, T, hres, hn, hT, h.symm⟩
     · contradiction
+
+/-- A multi-section grading: every chop is calculated on its own sub-length `L * ratio` (so each division obeys the
+    pair theorems above on that sub-length), the divisions are appended in order, the ratios are stored and lie in
+    `(0, 1]`; the cell count of the edge is the sum of the counts. -/
+theorem T_C03_grading_sections {t : Tol} {L : ℚ} :
+    ∀ (items : List (ℚ × Oracle × Vals)) (spec spec' : List Division), addChops t L spec items = .ok spec' →
+      ∃ ds, spec' = spec ++ ds ∧ gradingCount spec' = gradingCount spec + gradingCount ds ∧
+        List.Forall₂ (fun (item : ℚ × Oracle × Vals) (d : Division) =>
+          0 < item.1 ∧ item.1 ≤ 1 ∧ d.ratio = item.1 ∧
+            ∃ res, calculate t (L * item.1) item.2.1 item.2.2 = .ok res ∧ res.count = some d.count ∧
+              res.total = some d.total) items ds := by
+  intro items
+  induction items with
+  | nil =>
+    intro spec spec' h
+    simp only [addChops, pure, Except.pure, Except.ok.injEq] at h
+    exact ⟨[], by simp [h], by simp [h, gradingCount], List.Forall₂.nil⟩
+  | cons item rest ih =>
+    intro spec spec' h
+    obtain ⟨q, o, v⟩ := item
+    simp only [addChops] at h
+    split at h
+    · contradiction
+    · next s1 hs1 =>
+      obtain ⟨hq0, hq1, res, n, T, hres, hn, hT, rfl⟩ := T_C03_add_chop hs1
+      obtain ⟨ds, hds, _, hall⟩ := ih _ _ h
+      refine ⟨⟨q, n, T⟩ :: ds, by rw [hds]; simp, ?_, List.Forall₂.cons ⟨hq0, hq1, rfl, res, hres, hn, hT⟩ hall⟩
+      rw [hds]
+      simp only [gradingCount, List.map_append, List.map_cons, List.map_nil, List.sum_append, List.sum_cons, List.sum_nil]
+      omega
+
+example : (addChops T0 2 [] [(1 / 2, { count := some 8 }, { start := some (1 / 10), c2c := some (11 / 10) }),
+      (1 / 2, {}, { count := some 4, c2c := some 2 })]).toOption.map (fun sp => (sp.map (·.count), gradingCount sp)) =
+    some ([8, 4], 12) := by decide +kernel
 
 end CBV.C03
